@@ -76,7 +76,7 @@ def cases(ctx):
             src = {'kind': 'reader', 'format': fmt, 'doc': d['doc'], 'reader_kwargs': d['reader_kwargs'],
                    'read_kwargs': d['read_kwargs']}
         else:
-            prog = sccprog.gen_popon(rng)
+            prog = sccprog.gen_popon(rng, italic_bias=rng.choice([0.0, 0.5, 0.9]))
             lines, _ = sccprog.encode_popon(prog)
             src = {'kind': 'reader', 'format': 'scc', 'doc': sccprog.scc_doc(lines), 'reader_kwargs': {},
                    'read_kwargs': {}}
